@@ -81,6 +81,8 @@ theorem oci_cancelTimer_other (s : Stack) (own : Cb → Bool) (t : Option Nat) (
 @[simp] theorem oci_with_outgoing_sendLog (s : Stack) (x : Outgoing) (y : List (Dest × (Bool × Nat))) : oci { s with outgoing := x, sendLog := y } = oci s := rfl
 @[simp] theorem oci_with_findLog (s : Stack) (x : List (Nat × Nat)) : oci { s with findLog := x } = oci s := rfl
 @[simp] theorem oci_with_findMarks (s : Stack) (x : List (Nat × Nat)) : oci { s with findMarks := x } = oci s := rfl
+@[simp] theorem oci_with_ansLog (s : Stack) (x : List (Nat × Addr × Nat × Nat)) : oci { s with ansLog := x } = oci s := rfl
+@[simp] theorem oci_logAnswer (s : Stack) (i : Nat) (a : Addr) (d : Nat) : oci (s.logAnswer i a d) = oci s := rfl
 @[simp] theorem oci_markFind (s : Stack) (n : Nat) : oci (s.markFind n) = oci s := rfl
 @[simp] theorem oci_with_offLog (s : Stack) (x : List (Nat × OEv × Nat)) : oci { s with offLog := x } = oci s := rfl
 @[simp] theorem oci_logOffer (s : Stack) (i : Nat) (e : OEv) : oci (s.logOffer i e) = oci s := rfl
